@@ -143,6 +143,34 @@ def partial_transfer(chk, prog):
                 else:
                     chk.violation("K10-zero", inst, c, "a result of 0 from %s does not end the loop: the transfer spins or "
                                   "a closed pipe is treated as progress" % name)
+                # (3b) the loop ends only because everything was transferred, on end of file, or on an error
+                bad_exit = None
+                for b in body:
+                    for sx in b.succs:
+                        if sx in body:
+                            continue
+                        t = b.term
+                        cnd = t.ops[0] if t.ops else None
+                        why = None
+                        if cnd is not None and cnd.is_inst and cnd.op == "icmp":
+                            ops_ = [strip_casts(o) for o in cnd.ops]
+                            on_res = any(o in res for o in cnd.ops) or any(o in res for o in ops_)
+                            zero = any(o.is_const and o.is_int and o.sval == 0 for o in cnd.ops)
+                            if on_res and zero:
+                                why = "result compared with 0"
+                            elif any(x.is_inst and x.op == "call" and norm_callee(x.callee) == "__errno_location"
+                                     for x in backward_slice(cnd, through_loads=True)):
+                                why = "errno test on the error path"
+                            elif not on_res:
+                                why = "loop condition on the remaining size / fill level (not on the result itself)"
+                        if why is None:
+                            bad_exit = t
+                if bad_exit is None:
+                    chk.ok("K10-exit", inst, c, "the retry loop is left only when done, at end of file or on an error")
+                else:
+                    chk.violation("K10-exit", inst, bad_exit, "the transfer loop around %s can end for a reason other than "
+                                  "'all transferred', end of file or an error (e.g. on a short count): callers receive less "
+                                  "than they asked for although more data is coming" % name)
                 # (4) progress: every varying operand advances by the result
                 ops = [("buffer", c.ops[bi]), ("size", c.ops[si])] + ([("offset", c.ops[oi])] if oi is not None else [])
                 for (what, v) in ops:
@@ -320,6 +348,7 @@ def run(chk):
     chk.floor("K10-eintr", 4)
     chk.floor("K10-zero", 4)
     chk.floor("K10-advance", 8)
+    chk.floor("K10-exit", 4)
     chk.floor("K10-consume", 6)
     chk.floor("T1-eof", 1)
     chk.floor("T2-short", 5)
